@@ -736,6 +736,30 @@ def mon_c03(case_line, acts):
                 out.append(V('after action #%d the release list is %s but the PUBRECs were received in the order %s: '
                              'replayed PUBRELs would not keep the PUBREC order' % (i, rel_after, rec_order)))
                 rec_order = list(rel_after)
+        # every successful PUBREC (any reason code below 0x80) for a QoS 2 PUBLISH still retained is followed by its PUBREL:
+        # after the action that consumed it the exchange sits in the release list (or has already been completed)
+        if a.state is not None and a.code in (5, 6, 7) and not (a.result or '').startswith('err') and prev:
+            before = _ret_bytes(prev)
+            rel_now = [int(x.split(':')[0]) for x in list_field(a.state.get('rel', '[]'))]
+            evs_i = per_action.get(i, [])
+            comps = [((e[2][0] << 8) | e[2][1]) for e in evs_i if e[0] == 'rx' and e[1] >> 4 == 7 and len(e[2]) >= 2]
+            named = set()       # identifiers an earlier acknowledgement of this action has already released (a broker that
+                                # answers a QoS 2 PUBLISH with a PUBACK or SUBACK is outside the property's quantifier)
+            for e in evs_i:
+                if e[0] == 'rx' and e[1] >> 4 in (4, 9, 11) and len(e[2]) >= 2:
+                    named.add((e[2][0] << 8) | e[2][1])
+                if e[0] == 'rx' and e[1] >> 4 == 5 and len(e[2]) >= 2 and ((e[2][0] << 8) | e[2][1]) in named:
+                    continue
+                if e[0] == 'rx' and e[1] >> 4 == 5 and len(e[2]) >= 2:
+                    named.add((e[2][0] << 8) | e[2][1]) if (len(e[2]) >= 3 and e[2][2] >= 0x80) else None
+                if e[0] == 'rx' and e[1] >> 4 == 5 and len(e[2]) >= 2 and (len(e[2]) < 3 or e[2][2] < 0x80):
+                    pid = (e[2][0] << 8) | e[2][1]
+                    img = before.get(pid)
+                    if img and img[0] >> 4 == 3 and (img[0] >> 1) & 3 == 2 and pid not in rel_now and pid not in comps \
+                            and pid not in _ret_bytes(a.state):
+                        out.append(V('the PUBREC of QoS 2 publish %d (reason 0x%02x, a success) was consumed at action #%d: the PUBLISH '
+                                     'is gone but no PUBREL is owed - the exchange ends without PUBREL'
+                                     % (pid, e[2][2] if len(e[2]) >= 3 else 0, i)))
         owed = set(rel_before)
         released = set()
         last = -1
@@ -912,6 +936,25 @@ def mon_panic(case_line, acts):
     for i, a in enumerate(acts):
         if a.result == 'PANIC':
             out.append(V('the client panicked during action #%d' % i))
+    return out
+
+
+def mon_c08_connack(case_line, acts):
+    """a CONNACK the client rejects as invalid is not partially acted upon: the client identifier, the session-present
+    flag, the generation and the in-flight lists are what they were before that connect()"""
+    out = []
+    for i, a in enumerate(acts):
+        if a.code != 0 or a.result != 'err InvalidPacket' or i == 0:
+            continue
+        st, prev = a.state or {}, acts[i - 1].state or {}
+        ids = lambda s_, k: [x.split(':')[0] for x in list_field(s_.get(k, '[]'))]
+        for key in ('cid', 'sp', 'gen'):
+            if key in st and key in prev and st[key] != prev[key]:
+                out.append(V('connect() at action #%d rejected its CONNACK as invalid, yet %s changed: %s -> %s'
+                             % (i, key, prev[key], st[key])))
+        for key in ('ret', 'rel'):
+            if key in st and key in prev and ids(st, key) != ids(prev, key):
+                out.append(V('connect() at action #%d rejected its CONNACK as invalid, yet the %s list changed' % (i, key)))
     return out
 
 
@@ -2052,6 +2095,23 @@ def mon_c18_ref(case_line, acts):
                 continue                        # PUBACK / SUBACK naming an exchange that is past its PUBLISH: no retained entry
             if FINAL.get(h['kind']) == typ:
                 h['st'] = 'C'
+                # "a final acknowledgement carrying a failure code is surfaced as an error naming that code": the refusal
+                # of ANY filter of a SUBSCRIBE / UNSUBSCRIBE counts, whatever the other filters got
+                if len(evs) == 1 and a.code in (5, 6, 7):
+                    codes = []
+                    try:
+                        if typ in (9, 11):
+                            n, j = mqttspec.varint(bytes(body), 2)
+                            codes = list(body[j + n:])
+                        elif len(body) >= 3:
+                            codes = [body[2]]
+                    except Exception:
+                        codes = []
+                    bad = [c for c in codes if c >= 0x80]
+                    if bad and a.result != 'err Rejected(%d)' % bad[0] and not (a.result or '').startswith('err Rejected('):
+                        out.append(V('the %s of identifier %d consumed at action #%d carries the failure code 0x%02x; the call '
+                                     'returned %r instead of surfacing it' % ({4: 'PUBACK', 9: 'SUBACK', 11: 'UNSUBACK'}[typ], pid, i, bad[0], a.result)))
+                        return out
             else:
                 h['st'] = 'U'
         if a.code in (1, 2, 3) and (a.result or '').startswith('ok op '):
